@@ -130,6 +130,20 @@ Theorem rob_control_retry : forall s c rest,
 Proof. exact ctl_progress. Qed.
 Print Assumptions rob_control_retry.
 
+(** Sleep safety (the engine stops ticking a component that reports no progress): a tick that reports no
+    progress leaves the buffer exactly as it was - nothing is consumed, dropped or sent unreported - so the next
+    tick, with no delivery or retrieval in between, reports no progress either. *)
+Theorem rob_no_progress_means_no_change : forall s,
+  snd (tick s) = false -> crashed (fst (tick s)) = false -> fst (tick s) = s.
+Proof. exact tick_quiet. Qed.
+Print Assumptions rob_no_progress_means_no_change.
+
+Theorem rob_no_progress_stays : forall s,
+  crashed s = false -> snd (tick s) = false -> crashed (fst (tick s)) = false ->
+  step (fst (tick s)) ETick = (s, OTick false).
+Proof. exact no_progress_stays. Qed.
+Print Assumptions rob_no_progress_stays.
+
 (** Non-vacuity: a concrete history (two reads answered out of order, then a
     discard that drops a third one) reaches the states the theorems speak of. *)
 Definition rd (id a src : N) : msg := mkMsg id KRead src P_TOP 0 a 4 1 [] [] 0.
